@@ -40,6 +40,11 @@ type Exit struct {
 	PassParam int // >=0: class is decided by nil-ness of that parameter at the call site
 	Ret       *ssa.Return
 	Trace     []string // witness path (block list) - diagnosis only
+	// For functions with a single bool result (predicate helpers such as `shouldSync()`): Bool is what the result is
+	// known to be on this path (0 unknown, 1 true, 2 false); RetBool is the returned expression when it is not known,
+	// so that a branch on the call in the caller can be learnt from as a branch on that expression.
+	Bool    int8
+	RetBool ssa.Value
 }
 
 // StepOut is one outcome of an instruction: new abstract state plus an optional fact about the
@@ -427,7 +432,7 @@ func (x *Exec) run(a AState) []Exit {
 					if x.E.H.AtReturn != nil {
 						x.E.H.AtReturn(x, &ex)
 					}
-					k := fmt.Sprintf("%s|%d|%d|%p", ex.A, ex.Cls, ex.PassParam, ex.Ret)
+					k := fmt.Sprintf("%s|%d|%d|%p|%d", ex.A, ex.Cls, ex.PassParam, ex.Ret, ex.Bool)
 					if !exitSeen[k] {
 						exitSeen[k] = true
 						exits = append(exits, ex)
@@ -739,6 +744,14 @@ func (x *Exec) learn(cond ssa.Value, taken bool, s *pstate) {
 		x.cur = s
 		s.a = x.E.H.Learn(x, cond, taken, s.a)
 	}
+	if cl, ok := cond.(*ssa.Call); ok && s.alias != nil && x.E.H.Learn != nil {
+		// a predicate helper returned this expression: the rule learns from the branch as from a branch on it (the rule
+		// hook only - engine facts are keyed by value names of the current function)
+		if src, ok := s.alias[valKey(cl)]; ok && src != cond {
+			x.cur = s
+			s.a = x.E.H.Learn(x, src, taken, s.a)
+		}
+	}
 	if ph, ok := cond.(*ssa.Phi); ok && s.alias != nil {
 		if src, ok := s.alias[valKey(ph)]; ok && src != cond {
 			x.learn(src, taken, s)
@@ -778,6 +791,19 @@ func (x *Exec) learn(cond ssa.Value, taken bool, s *pstate) {
 
 func (x *Exec) classify(ret *ssa.Return, s *pstate) Exit {
 	ex := Exit{A: s.a, Cls: ClsNone, PassParam: -1, Ret: ret}
+	if res := x.Fn.Signature.Results(); res.Len() == 1 {
+		if bt, ok := res.At(0).Type().Underlying().(*types.Basic); ok && bt.Kind() == types.Bool {
+			rv := ReturnOperand(ret, 0)
+			if b, known := x.evalBool(rv, s); known {
+				ex.Bool = 2
+				if b {
+					ex.Bool = 1
+				}
+			} else {
+				ex.RetBool = rv
+			}
+		}
+	}
 	ei := ErrResultIndex(x.Fn.Signature)
 	if ei < 0 {
 		return ex
@@ -901,6 +927,14 @@ func (x *Exec) callDefault(ci ssa.CallInstruction, s *pstate) []*pstate {
 						}
 					}
 				}
+			}
+			if isVal && ex.Bool != 0 {
+				ns.facts[v.Name()] = 2 - ex.Bool // 1 -> true(1), 2 -> false(0)
+			} else if isVal && ex.RetBool != nil {
+				if ns.alias == nil {
+					ns.alias = map[string]ssa.Value{}
+				}
+				ns.alias[valKey(v)] = ex.RetBool
 			}
 			if isVal && ei >= 0 && (cls == ClsSuccess || cls == ClsFailure) {
 				k := v.Name()
